@@ -600,7 +600,18 @@ func (m *Machine) floatDivConst(x *SymFloat, d float64) Value {
 	dr := new(big.Rat).SetFloat64(d)
 	q := &SymFloat{R: c.RDiv(x.R, c.Rat(dr))}
 	q.IsInt = m.quotIsInt(x, dr)
-	m.noteAssumption("float division x/c is exact (dyadic operands, quotient within 53 bits)")
+	// The model divides exactly. Restrict the path to the region where IEEE division agrees
+	// about integrality: |q| below 2^53 (2^40 when the divisor is not a power of two, so that a
+	// non-integral quotient stays far from every integer), and no underflow.
+	lim := new(big.Rat).SetInt(new(big.Int).Lsh(big.NewInt(1), 53))
+	if num := new(big.Int).Abs(dr.Num()); !(num.BitLen() > 0 && new(big.Int).And(num, new(big.Int).Sub(num, big.NewInt(1))).Sign() == 0 && dr.Denom().BitLen() > 0 && new(big.Int).And(dr.Denom(), new(big.Int).Sub(dr.Denom(), big.NewInt(1))).Sign() == 0) {
+		lim = new(big.Rat).SetInt(new(big.Int).Lsh(big.NewInt(1), 40))
+	}
+	tiny := new(big.Rat).SetFrac(big.NewInt(1), new(big.Int).Lsh(big.NewInt(1), 1000))
+	absLe := c.And(c.Le(c.Neg(c.Rat(lim)), q.R), c.Le(q.R, c.Rat(lim)))
+	notTiny := c.Or(c.Eq(q.R, c.RatInt(0)), c.Le(c.Rat(tiny), q.R), c.Le(q.R, c.Neg(c.Rat(tiny))))
+	m.Assume(c.And(absLe, notTiny))
+	m.noteAssumption("float division x/c (multipleOf): only quotients with |q| <= 2^53 (2^40 for divisors that are not powers of two) and no underflow are in the claim, where the IEEE quotient's integrality equals the exact one")
 	return q
 }
 
@@ -864,11 +875,14 @@ func (m *Machine) equalsV(t types.Type, x, y Value) Value {
 		return unTerm(c.And(cs...))
 	case Iface:
 		yi := y.(Iface)
+		if (x.T == nil && yi.T == m.P.NodeT) || (yi.T == nil && x.T == m.P.NodeT) {
+			return m.nodeIfaceEq(x, yi)
+		}
 		if x.T == nil || yi.T == nil {
 			return x.T == nil && yi.T == nil
 		}
 		if x.T == m.P.NodeT || yi.T == m.P.NodeT {
-			unsupported("== on interface holding a symbolic JSON node")
+			return m.nodeIfaceEq(x, yi)
 		}
 		if !sameType(x.T, yi.T) {
 			return false
@@ -1491,4 +1505,128 @@ func (m *Machine) floatToInt(ii intInfo, x *SymFloat) Value {
 	}
 	m.DeclareRange(k, ii.lo, ii.hi)
 	return SymInt{k}
+}
+
+// ---- Go == on interfaces that hold symbolic JSON nodes
+
+// ifaceView resolves an interface value to (nil?, dynamic type, accessor) on this path.
+type ifaceView struct {
+	isNil bool
+	t     types.Type
+	node  *Node // non-nil for node-backed values (value without wrappers unless ptr)
+	ptr   bool  // the dynamic value is a pointer to the node's value
+	v     Value // concrete engine value otherwise
+}
+
+func (m *Machine) viewIface(x Iface) ifaceView {
+	if x.T == nil {
+		return ifaceView{isNil: true}
+	}
+	if x.T != m.P.NodeT {
+		return ifaceView{t: x.T, v: x.V}
+	}
+	var n *Node
+	inner := false
+	if in, ok := x.V.(NodeInner); ok {
+		n, inner = in.N, true
+	} else {
+		n = x.V.(*Node)
+	}
+	w := 0
+	if !inner {
+		w = m.nodeWrap(n)
+	}
+	if w == 0 && m.Branch(m.nodeTagIn(n, TagNull), "iface-nil") {
+		return ifaceView{isNil: true}
+	}
+	if w > 0 {
+		t := m.nodeGoType(n)
+		if t == nil {
+			t = types.Typ[types.Int] // typed nil pointer: the harness uses *int
+		}
+		return ifaceView{t: types.NewPointer(t), node: n, ptr: true}
+	}
+	return ifaceView{t: m.nodeGoType(n), node: n}
+}
+
+func (m *Machine) nodeIfaceEq(x, y Iface) Value {
+	c := m.Ctx
+	a, b := m.viewIface(x), m.viewIface(y)
+	if a.isNil || b.isNil {
+		return a.isNil && b.isNil
+	}
+	if !types.Identical(a.t, b.t) {
+		return false
+	}
+	if !types.Comparable(a.t) {
+		panic(targetPanic{v: "runtime error: comparing uncomparable type " + a.t.String(), what: "uncomparable"})
+	}
+	if a.ptr || b.ptr {
+		// pointers: identity; distinct nodes never alias
+		return a.node != nil && a.node == b.node
+	}
+	// scalar views
+	scalar := func(v ifaceView) Value {
+		if v.node == nil {
+			return v.v
+		}
+		n := v.node
+		switch bt := v.t.Underlying().(type) {
+		case *types.Basic:
+			switch {
+			case bt.Kind() == types.Bool:
+				return unTerm(m.simp(n.B))
+			case bt.Info()&types.IsInteger != 0:
+				return m.intVal(n.IVal)
+			case bt.Info()&types.IsFloat != 0:
+				return n.Float()
+			case bt.Kind() == types.String:
+				if types.Identical(v.t, m.P.ImportedType("encoding/json", "Number")) {
+					return &AStr{T: m.jsonNumberText(n)}
+				}
+				return &AStr{T: n.Str}
+			}
+		}
+		return nil
+	}
+	if arr, ok := a.t.Underlying().(*types.Array); ok {
+		// [n]any: element-wise interface comparison
+		var cs []*smt.Term
+		for i := 0; i < int(arr.Len()); i++ {
+			ea, eb := m.elemIface(a, i), m.elemIface(b, i)
+			r := m.equalsV(arr.Elem(), ea, eb)
+			if bv, ok := r.(bool); ok {
+				if !bv {
+					return false
+				}
+				continue
+			}
+			cs = append(cs, r.(*smt.Term))
+		}
+		return unTerm(c.And(cs...))
+	}
+	sa, sb := scalar(a), scalar(b)
+	if sa == nil || sb == nil {
+		unsupported("== on interfaces holding %s", a.t)
+	}
+	return m.equalsV(a.t, sa, sb)
+}
+
+func (m *Machine) elemIface(v ifaceView, i int) Value {
+	if v.node != nil {
+		return Iface{T: m.P.NodeT, V: v.node.Elem(i)}
+	}
+	return v.v.(Array)[i]
+}
+
+// checkHashable panics like the runtime when an interface map key holds an unhashable dynamic type.
+func (m *Machine) checkHashable(key Value) {
+	k, ok := key.(Iface)
+	if !ok || k.T == nil {
+		return
+	}
+	v := m.viewIface(k)
+	if !v.isNil && !types.Comparable(v.t) {
+		panic(targetPanic{v: "runtime error: hash of unhashable type " + v.t.String(), what: "unhashable"})
+	}
 }
